@@ -302,7 +302,8 @@ class _quiet:
 def run_job(job, seed=0):
     """Explore one job.  Returns a JSON-able summary."""
     t0 = time.time()
-    deadline = t0 + job.budget_s if job.budget_s else None
+    budget = job.budget_s or (300 if os.environ.get('VERIF_TIER', 'quick') == 'quick' else 1500)
+    deadline = t0 + budget
     summ = {'job': job.name, 'family': job.family, 'params': _jsonable_params(job.params), 'paths': 0,
             'decisions': 0, 'proved': 0, 'trivial': 0, 'unknown': [], 'violations': [], 'errors': [],
             'validated': 0, 'validation_skipped': 0, 'validation_mismatch': [], 'samples': [], 'infeasible': 0,
@@ -568,7 +569,12 @@ def main_check(pid, module, tier, jobs, meta, procs=None):
     ctx = mp.get_context('fork')
     order = sorted(range(len(jobs)), key=lambda i: -(jobs[i].budget_s or 0))
     with ctx.Pool(processes=procs, maxtasksperchild=8) as pool:
-        summaries = list(pool.imap_unordered(_worker, [(i, seed) for i in order], chunksize=1))
+        summaries = []
+        for sm in pool.imap_unordered(_worker, [(i, seed) for i in order], chunksize=1):
+            summaries.append(sm)
+            if os.environ.get('VERIF_PROGRESS'):
+                sys.stderr.write('  done %-50s paths=%d wall=%.1fs viol=%d err=%d unk=%d\n' % (
+                    sm['job'], sm['paths'], sm.get('wall_s', 0), len(sm['violations']), len(sm['errors']), len(sm['unknown'])))
     summaries.sort(key=lambda s: s['job'])
     known = load_known()
     viol_new, viol_known, unreproduced, errors, unknowns, mismatches = [], [], [], [], [], []
